@@ -254,13 +254,14 @@ class Judge:
                           "exit 0 but the output is not in QBE's grammar: %s" % u.parse_err,
                           {"id": u.id, "kind": u.kind, "target": u.target, "source": u.src, "stdout_tail": (u.il or "")[-400:]})
             return
-        key = vlib.sha(u.il + "|" + vlib.canon(u.known))
+        sigs = u.meta.get("sigs")
+        key = vlib.sha(u.il + "|" + vlib.canon(u.known) + ("|" + vlib.canon(sigs) if sigs else ""))
         if key in self.by_text:
             self.excluded["dup_text"] += 1
             return
         self.by_text[key] = u.id
         self.units[u.id] = u
-        m = c03lib.module_to_tla(u.mod, u.id, u.known)
+        m = c03lib.module_to_tla(u.mod, u.id, u.known, sigs)
         self.excluded["data_big"] += sum(1 for d in m["data"] if d["big"])
         self.lines.append((c03lib.dumps(m), 1 + 2 * len(m["funcs"])))
         self.expected += 1 + 2 * len(m["funcs"])
@@ -330,6 +331,8 @@ class Judge:
                     self.excluded["call_unprototyped"] += 1
                     continue
                 det = detail_of(ob, at, u, fname)
+                if u.kind == "sig" and not det:     # the dimensions of the SigGen case (names only)
+                    det = "sig-%s-%s%s" % (u.meta["layout"], "unnamed" if u.meta["nunnamed"] else "named", "-variadic" if u.meta["variadic"] else "")
                 ctx.violation("wf:%s:%s" % (ob, det),
                               "exit 0 with malformed IL: obligation %s fails at %s in function $%s" % (ob, at, fname),
                               {"id": u.id, "kind": u.kind, "target": u.target, "function": fname, "obligation": ob, "at": at,
@@ -471,12 +474,18 @@ def stored_qbe_audit(ctx, judge):
 
 # ----------------------------------------------------------------------------------------------
 # validator self-test: each obligation must reject its seeded malformed module (vacuity guard)
+# the C signature of the functions $sigf / $sigv of the self-test modules SigMatchesC__*.il:
+# `struct SA sigf(struct SA, int)` and `void sigv(double, ...)`
+SELFTEST_SIGS = {"sigf": {"known": True, "rcls": "agg", "rtag": "SA", "pcls": ["agg", "w"], "ptag": ["SA", ""], "variadic": False},
+                 "sigv": {"known": True, "rcls": "", "rtag": "", "pcls": ["d"], "ptag": [""], "variadic": True}}
+
+
 def selftest(ctx):
     files = sorted(glob.glob(os.path.join(SELFTEST, "*.il")))
     lines = []
     for p in files:
         m = ilparse.parse(open(p).read())
-        lines.append(c03lib.dumps(c03lib.module_to_tla(m, os.path.basename(p)[:-3], {"x": (8, 4)})))
+        lines.append(c03lib.dumps(c03lib.module_to_tla(m, os.path.basename(p)[:-3], {"x": (8, 4)}, SELFTEST_SIGS)))
     path = ctx.path("selftest.ndjson")
     open(path, "w").write("\n".join(lines) + "\n")
     obs = [
@@ -803,6 +812,8 @@ def run(ctx):
     units += pinned_units(targets)
     units += tour_units(ctx, targets)
     units += generated_units(ctx, targets)
+    sigu = sig_units(ctx, targets)
+    units += sigu
     units += mutant_units(ctx, targets)
     tr = ctx.path("tr")
     os.makedirs(tr, exist_ok=True)
@@ -817,6 +828,11 @@ def run(ctx):
         if u.kind == "gen" and u.rc == 0 and u.mod is not None:
             u.known.update(u.meta["gen_known"])        # WfGen's table is the oracle for the objects it declares
         judge.add(u)
+    nsig0 = sum(1 for u in sigu if u.rc == 0 and u.mod is not None)
+    if nsig0 < 0.98 * len(sigu):
+        bad = next(u for u in sigu if u.rc != 0 or u.mod is None)
+        raise vlib.MachineryError("SigGen programs stopped compiling (%d of %d exit 0); e.g. rc=%s %s\n%s" % (
+            nsig0, len(sigu), bad.rc, (bad.err or "")[:300], bad.src[-400:]))
     ngen = [u for u in units if u.kind == "gen" and not u.meta["undef"]]
     if ngen and sum(1 for u in ngen if u.rc == 0) < 0.95 * len(ngen):
         bad = next(u for u in ngen if u.rc != 0)
@@ -944,6 +960,72 @@ def generated_units(ctx, targets):
             raise vlib.MachineryError("SPEC-AUDIT: gcc %s a WfGen program (undef=%s):\n%s\n%s" % (
                 "rejects" if rc else "accepts", u.meta["undef"], msg[-800:], u.src[-1500:]))
     ctx.cov["generated_programs"] = len(first)
+    return units
+
+
+SIG_PROLOGUE = """struct SA { int a; char b[3]; };
+struct SB { long a; long b; long c; };
+union UA { long l; double d; char c[12]; };
+struct SN { struct SI { short a; } in; double d; };
+enum EN { E0, E1 };
+extern int gi; extern char gc; extern unsigned short gh; extern long gl; extern char *gp; extern float gf; extern double gd;
+extern struct SA gsa; extern struct SB gsb; extern union UA gua; extern struct SN gsn; extern enum EN gen; extern _Bool gb;
+extern long sink;
+"""
+
+
+def sig_render(c):
+    """one SigGen case -> one translation unit: the definition of sf (named / unnamed parameters as the case says) and a
+    caller sc; layout dc = definition, caller; pcd = prototype, caller, definition"""
+    va = ", ..." if c["variadic"] else ""
+    proto = ", ".join(p["cty"] for p in c["ps"]) or "void"
+    decl = ", ".join(p["cty"] + (" p%d" % i if p["named"] else "") for i, p in enumerate(c["ps"], 1)) or "void"
+    body = "".join(" sink += (long)%s;" % p["use"].replace("#", "p%d" % i) for i, p in enumerate(c["ps"], 1) if p["named"])
+    if c["ret"] != "void":
+        body += " return %s;" % c["retarg"]
+    defn = "%s sf(%s%s) {%s }\n" % (c["ret"], decl, va, body)
+    call = "void sc(void) { %ssf(%s); }\n" % ("" if c["ret"] == "void" else "(void)", ", ".join([p["arg"] for p in c["ps"]] + c["vargs"]))
+    if c["layout"] == "dc":
+        return SIG_PROLOGUE + defn + call
+    return SIG_PROLOGUE + "%s sf(%s%s);\n" % (c["ret"], proto, va) + call + defn
+
+
+def sig_units(ctx, targets):
+    """SigGen.tla, exhaustive: function definitions with named / unnamed parameters of every class that are called in
+    the same unit; QbeWF judges header against the C signature (SigMatchesC) and call against header (CallArgsMatchCallee)"""
+    cfgs = ["MC_SigGen_quick.cfg"] if ctx.quick else ["MC_SigGen_thorough.cfg", "MC_SigGen_three.cfg"]
+    units, seen = [], set()
+    for cfg in cfgs:
+        r = ctx.tlc_must_pass("SigGen", cfg, workers=4, timeout=900, heap="4g")
+        for v in r.vcases:
+            if v in seen:
+                continue
+            seen.add(v)
+            c = json.loads(v)
+            src = sig_render(c)
+            meta = {"sigs": {"sf": c["csig"], "sc": c["callersig"]}, "nunnamed": c["nunnamed"], "nagg": c["nagg"],
+                    "variadic": c["variadic"], "layout": c["layout"], "nparams": len(c["ps"])}
+            for t in targets:
+                if t != targets[0] and len(seen) % 4:       # the other targets: every 4th case
+                    continue
+                units.append(Unit("sig:%s@%s" % (vlib.sha(v)[:12], t), "sig", src, t, meta))
+    first = [u for u in units if u.target == targets[0]]
+    # vacuity guard: every dimension is present
+    if not (any(u.meta["nunnamed"] and u.meta["nagg"] for u in first) and any(u.meta["variadic"] for u in first)
+            and {u.meta["layout"] for u in first} == {"dc", "pcd"} and {u.meta["nparams"] for u in first} >= {0, 1, 2}):
+        raise vlib.MachineryError("vacuity guard: SigGen dimensions missing")
+    # audit of the generator against gcc (C23: unnamed parameters in definitions): every program is valid C
+    def audit(u):
+        p = subprocess.run(["gcc", "-std=c2x", "-fsyntax-only", "-w", "-x", "c", "-"], input=u.src, stdout=subprocess.PIPE,
+                           stderr=subprocess.STDOUT, text=True)
+        return p.returncode, p.stdout
+    step = 5 if ctx.quick else 11
+    pick = first[ctx.seed % step::step]
+    for u, (rc, msg) in zip(pick, vlib.pmap(audit, pick)):
+        if rc != 0:
+            raise vlib.MachineryError("SPEC-AUDIT: gcc -std=c2x rejects a SigGen program:\n%s\n%s" % (msg[-800:], u.src[-600:]))
+    ctx.cov["sig_cases"] = len(first)
+    ctx.cov["sig_cases_with_unnamed_aggregate"] = sum(1 for u in first if u.meta["nunnamed"] and u.meta["nagg"])
     return units
 
 
